@@ -177,6 +177,17 @@ impl ReceiveFrame<StreamCtlFrame> for FlowControlledDataStreams {
     }
 }
 
+/// Verification hook: the real "stream accounting, then connection accounting" receiver that
+/// the data space pipes STREAM and stream-control frames into.
+#[cfg(genmeta_gm_quic_verif)]
+pub fn verif_flow_controlled_streams(
+    streams: DataStreams,
+    flow_ctrl: FlowController,
+) -> impl ReceiveFrame<(StreamFrame, Bytes), Output = ()> + ReceiveFrame<StreamCtlFrame, Output = ()> + Clone
+{
+    FlowControlledDataStreams::new(streams, flow_ctrl)
+}
+
 struct AckInitialSpace {
     sent_journal: ArcSentJournal<CryptoFrame>,
     crypto_stream_outgoing: CryptoStreamOutgoing,
